@@ -21,6 +21,7 @@ RULE = ("one run = a Valve device in a real slow SyncGroup on the simulated bus 
         "after reset(); every Valve.update is compared step by step with a reference model "
         "of the statement; distinct = distinct event-log digests; non-trivial = the valve "
         "was commanded to move at least once")
+RULE += '; since the 4th session movingTime is also 0 or infinity'
 COMPONENTS = {
     "real": ["ebpfcat.devices.Valve.update/reset", "ebpfcat.ebpfcat.SyncGroup (cycle, "
              "update_devices)", "PacketVar bit access (Python path)"],
